@@ -553,3 +553,212 @@ Proof.
     + pose proof (Nat.div_mod (len b) 6 ltac:(lia)). lia.
     + pose proof (Nat.div_mod (f_width f) 6 ltac:(lia)). lia.
 Qed.
+
+(* ------------------------------------------------------------------------------------------------ *)
+(* the text the model decodes is the text of the layout specification; canonical raw text is re-emitted *)
+
+Lemma chunk_char_checked :
+  forallb (fun c => (ascii6_char c =? (if uval c =? 0 then 64 else sixbit_char (uval c)))
+                    && negb (sixbit_char (uval c) =? 64) || (uval c =? 0)) (all_bits 6) = true.
+Proof. vm_compute. reflexivity. Qed.
+
+Lemma short_pad_decodes_nothing l : (len l < 6)%nat -> pad_ok l = true -> ascii6_loop (chunks 6 l) = [].
+Proof.
+  intros Hlt Hp. destruct l as [|x r]; [reflexivity|].
+  rewrite chunks_step by (try lia; discriminate). cbn [ascii6_loop].
+  unfold pad_ok in Hp. rewrite (Nat.div_small _ 6 Hlt) in Hp. cbn [Nat.mul skipn] in Hp.
+  rewrite firstn_all2 by lia. rewrite (all_false_repeat (x :: r) Hp).
+  pose proof zero_chunks_checked as K. rewrite forallb_forall in K.
+  assert (In (len (x :: r)) [1; 2; 3; 4; 5]%nat) as Hin by (cbn in *; lia).
+  rewrite (K _ Hin). reflexivity.
+Qed.
+
+Lemma pad_ok_skip6 l : (6 <= len l)%nat -> pad_ok l = true -> pad_ok (skipn 6 l) = true.
+Proof.
+  intros Hge Hp. unfold pad_ok in *.
+  assert (len l / 6 = S (len (skipn 6 l) / 6))%nat as Ediv.
+  { rewrite skipn_length. replace (len l) with ((len l - 6) + 1 * 6)%nat at 1 by lia. rewrite Nat.div_add by lia. lia. }
+  rewrite Ediv in Hp. replace (6 * S (len (skipn 6 l) / 6))%nat with (6 + 6 * (len (skipn 6 l) / 6))%nat in Hp by lia.
+  rewrite <- skipn_skipn_ in Hp. exact Hp.
+Qed.
+
+Lemma text_model_spec : forall fuel b, (len b / 6 <= fuel)%nat -> pad_ok b = true ->
+  ascii6_loop (chunks 6 b) = until_at (sixbit_codes b fuel).
+Proof.
+  induction fuel as [|fuel IH]; intros b Hf Hp.
+  - assert (len b < 6)%nat as Hlt.
+    { destruct (Nat.lt_ge_cases (len b) 6) as [|Hge]; [assumption|].
+      pose proof (Nat.div_le_mono 6 (len b) 6 ltac:(lia) Hge) as D. rewrite Nat.div_same in D by lia. lia. }
+    rewrite short_pad_decodes_nothing by assumption. destruct b; reflexivity.
+  - destruct (Nat.lt_ge_cases (len b) 6) as [Hlt|Hge].
+    + rewrite short_pad_decodes_nothing by assumption.
+      destruct b as [|b0 [|b1 [|b2 [|b3 [|b4 [|b5 r]]]]]]; try reflexivity. cbn in Hlt. lia.
+    + destruct b as [|b0 [|b1 [|b2 [|b3 [|b4 [|b5 r]]]]]]; try (cbn in Hge; lia).
+      change (b0 :: b1 :: b2 :: b3 :: b4 :: b5 :: r) with ([b0; b1; b2; b3; b4; b5] ++ r) at 1.
+      rewrite chunks_app_full by (try lia; reflexivity). cbn [ascii6_loop sixbit_codes until_at].
+      pose proof chunk_char_checked as K. rewrite forallb_forall in K.
+      specialize (K [b0; b1; b2; b3; b4; b5] (in_all_bits 6 [b0; b1; b2; b3; b4; b5] eq_refl)).
+      assert (pad_ok r = true) as Hp' by (apply (pad_ok_skip6 (b0 :: b1 :: b2 :: b3 :: b4 :: b5 :: r)); [cbn; lia|exact Hp]).
+      assert (len r / 6 <= fuel)%nat as Hf'.
+      { cbn [List.length] in Hf. replace (S (S (S (S (S (S (len r))))))) with (len r + 1 * 6)%nat in Hf by lia.
+        rewrite Nat.div_add in Hf by lia. lia. }
+      destruct (Z.eqb_spec (uval [b0; b1; b2; b3; b4; b5]) 0) as [E0|N0].
+      * rewrite E0 in K. cbn [Z.eqb] in K. rewrite orb_true_r in K.
+        assert (ascii6_char [b0; b1; b2; b3; b4; b5] = 64) as ->.
+        { clear - E0. destruct b0, b1, b2, b3, b4, b5; cbn in E0; try discriminate. reflexivity. }
+        reflexivity.
+      * rewrite orb_false_r in K. apply andb_prop in K as [K1 K2]. apply Z.eqb_eq in K1. apply negb_true_iff in K2.
+        rewrite K1, K2. f_equal. apply IH; assumption.
+Qed.
+
+Lemma decode_text_is_spec_text b : pad_ok b = true -> decode_bin_as_ascii6 b = spec_text b.
+Proof.
+  intros Hp. unfold decode_bin_as_ascii6, spec_text. rewrite strip_is_trim. f_equal.
+  apply text_model_spec; [|exact Hp]. pose proof (Nat.div_le_upper_bound (len b) 6 (len b) ltac:(lia)). lia.
+Qed.
+
+Lemma str_to_bin_form s w (ts : bool) : forallb text_char_ok s = true -> (List.length s <= w / 6)%nat ->
+  str_to_bin s w ts = Ok (concat (map six_bits (if ts then s ++ repeat 64 (w / 6 - List.length s) else s))).
+Proof.
+  intros Hs Hl. unfold str_to_bin.
+  set (s' := if ts then s ++ repeat 64 (w / 6 - List.length s) else s).
+  assert (List.length s' <= w / 6)%nat as Hl'.
+  { unfold s'. destruct ts; [rewrite app_length, repeat_length; lia|assumption]. }
+  assert (forallb text_char_ok s' = true) as Hs'.
+  { unfold s'. destruct ts; [|assumption]. rewrite forallb_app, Hs. apply forallb_repeat. reflexivity. }
+  rewrite firstn_all2 by assumption. apply str_to_bin_loop_ok. assumption.
+Qed.
+
+(* a bit string is its six-bit codes followed by the sub-character rest *)
+Lemma bits_of_codes : forall fuel b, (len b / 6 <= fuel)%nat ->
+  b = concat (map (z_to_bits 6) (sixbit_codes b fuel)) ++ skipn (6 * (len b / 6)) b /\
+  List.length (sixbit_codes b fuel) = (len b / 6)%nat.
+Proof.
+  induction fuel as [|fuel IH]; intros b Hf.
+  - assert (len b / 6 = 0)%nat as E by lia. rewrite E. cbn [Nat.mul skipn]. destruct b; cbn; auto.
+  - destruct (Nat.lt_ge_cases (len b) 6) as [Hlt|Hge].
+    + rewrite (Nat.div_small _ 6 Hlt). cbn [Nat.mul skipn].
+      destruct b as [|b0 [|b1 [|b2 [|b3 [|b4 [|b5 r]]]]]]; cbn; auto. cbn in Hlt. lia.
+    + destruct b as [|b0 [|b1 [|b2 [|b3 [|b4 [|b5 r]]]]]]; try (cbn in Hge; lia).
+      assert (len (b0 :: b1 :: b2 :: b3 :: b4 :: b5 :: r) / 6 = S (len r / 6))%nat as Ediv.
+      { cbn [List.length]. replace (S (S (S (S (S (S (len r))))))) with (len r + 1 * 6)%nat by lia.
+        rewrite Nat.div_add by lia. lia. }
+      rewrite Ediv in *. destruct (IH r ltac:(lia)) as (A & B).
+      cbn [sixbit_codes map List.concat List.length]. rewrite B. split; [|reflexivity].
+      replace (6 * S (len r / 6))%nat with (6 + 6 * (len r / 6))%nat by lia. rewrite <- skipn_skipn_.
+      cbn [skipn]. rewrite <- app_assoc, <- A.
+      rewrite uval_ubits. change 6%nat with (len [b0; b1; b2; b3; b4; b5]) at 1. rewrite z_to_bits_ubits. reflexivity.
+Qed.
+
+Lemma code_bits_checked :
+  forallb (fun c => if list_eq_dec Bool.bool_dec (six_bits (if c =? 0 then 64 else sixbit_char c)) (z_to_bits 6 c)
+                    then true else false) (zrange 0 63) = true.
+Proof. vm_compute. reflexivity. Qed.
+
+Lemma code_bits c : 0 <= c <= 63 -> six_bits (if c =? 0 then 64 else sixbit_char c) = z_to_bits 6 c.
+Proof.
+  intros H. pose proof code_bits_checked as K. rewrite forallb_forall in K. specialize (K c (in_zrange_ 0 63 c H)).
+  destruct (list_eq_dec _ _ _); [assumption|discriminate].
+Qed.
+
+Lemma sixbit_codes_range : forall fuel b, Forall (fun c => 0 <= c <= 63) (sixbit_codes b fuel).
+Proof.
+  induction fuel as [|fuel IH]; intros b; [destruct b; cbn; constructor|].
+  destruct b as [|b0 [|b1 [|b2 [|b3 [|b4 [|b5 r]]]]]]; try (cbn; constructor; fail).
+  cbn [sixbit_codes]. apply Forall_cons; [|apply IH].
+  rewrite uval_ubits. pose proof (ubits_bound [b0; b1; b2; b3; b4; b5]). cbn [List.length] in *.
+  change (2 ^ Z.of_nat 6) with 64 in *. lia.
+Qed.
+
+(* once a '@' appears only '@' follow: the codes are non-zero codes followed by zeros *)
+Lemma all_from_at_split cs : all_from_at cs = true ->
+  exists nz k, cs = nz ++ repeat 0 k /\ forallb (fun c => negb (c =? 0)) nz = true.
+Proof.
+  unfold all_from_at.
+  set (go := fix go (cs : list Z) (seen : bool) {struct cs} : bool :=
+               match cs with
+               | [] => true
+               | c :: r => if c =? 0 then go r true else negb seen && go r false
+               end).
+  assert (forall l, go l true = true -> l = repeat 0 (List.length l)) as Hz.
+  { induction l as [|c r IH]; [reflexivity|]. cbn [go]. destruct (Z.eqb_spec c 0) as [->|]; [|discriminate].
+    intros H. cbn [List.length repeat]. f_equal. apply IH. exact H. }
+  induction cs as [|c r IH]; intros H.
+  - exists [], 0%nat. auto.
+  - cbn [go] in H. destruct (Z.eqb_spec c 0) as [->|N].
+    + exists [], (S (List.length r)). cbn [app repeat]. rewrite <- (Hz r H). auto.
+    + cbn [negb andb] in H. destruct (IH H) as (nz & k & -> & Hn). exists (c :: nz), k. split; [reflexivity|].
+      cbn [forallb]. rewrite Hn. destruct (Z.eqb_spec c 0); [contradiction|reflexivity].
+Qed.
+
+Lemma until_at_nz nz k : forallb (fun c => negb (c =? 0)) nz = true ->
+  until_at (nz ++ repeat 0 k) = map sixbit_char nz.
+Proof.
+  induction nz as [|c r IH]; intros H.
+  - destruct k; reflexivity.
+  - cbn [forallb] in H. apply andb_prop in H as [Hc Hr]. apply negb_true_iff in Hc.
+    cbn [app until_at map]. rewrite Hc, IH by assumption. reflexivity.
+Qed.
+
+Lemma ltrim_length l : (List.length (ltrim l) <= List.length l)%nat.
+Proof. induction l as [|c r IH]; [cbn; lia|]. cbn [ltrim]. destruct (c =? 32); cbn [List.length]; lia. Qed.
+Lemma ltrim_len_eq l : List.length (ltrim l) = List.length l -> ltrim l = l.
+Proof.
+  destruct l as [|c r]; [reflexivity|]. cbn [ltrim]. destruct (c =? 32); [|reflexivity].
+  pose proof (ltrim_length r). cbn [List.length]. lia.
+Qed.
+Lemma trim_len_eq t : List.length (trim t) = List.length t -> trim t = t.
+Proof.
+  unfold trim. rewrite rev_length. intros H.
+  pose proof (ltrim_length (rev (ltrim t))) as A. rewrite rev_length in A. pose proof (ltrim_length t) as B.
+  assert (ltrim t = t) as E1 by (apply ltrim_len_eq; lia). rewrite E1 in *.
+  rewrite (ltrim_len_eq (rev t)) by (rewrite rev_length; lia). apply rev_involutive.
+Qed.
+
+(* canonical raw text (Spec/RoundTripSpec.v raw_text_canonical, with the variable-length / full-width side condition)
+   is re-emitted bit for bit, provided there are no sub-character bits *)
+Lemma text_fix ex f b : field_impl KT ex f = true -> b <> [] -> (len b <= f_width f)%nat ->
+  (len b mod 6 = 0)%nat -> raw_text_canonical b = true ->
+  (if ex then forallb (fun c => negb (c =? 0)) (sixbit_codes b (len b)) = true else len b = f_width f) ->
+  bits_of_field f (VStr (decode_bin_as_ascii6 b)) = Ok b.
+Proof.
+  cbn [field_impl]. intros H Hne Hle Hm6 Hcan Hside.
+  apply andb_prop in H as [H Hv]. apply andb_prop in H as [Hd Hpl].
+  apply is_dtype_inv in Hd. apply plain_inv in Hpl as (Hf & Ht & Ha). apply eqb_prop in Hv.
+  unfold raw_text_canonical in Hcan. apply andb_prop in Hcan as [Hcan Hrest]. apply andb_prop in Hcan as [Hall Htrim].
+  apply Nat.eqb_eq in Htrim.
+  set (cs := sixbit_codes b (len b)) in *.
+  assert (len b / 6 <= len b)%nat as Hfuel by (pose proof (Nat.div_le_upper_bound (len b) 6 (len b) ltac:(lia)); lia).
+  destruct (bits_of_codes (len b) b Hfuel) as (Eb & Lcs). fold cs in Eb, Lcs.
+  assert (skipn (6 * (len b / 6)) b = []) as Erest.
+  { apply length_zero_iff_nil. rewrite skipn_length. pose proof (Nat.div_mod (len b) 6 ltac:(lia)). lia. }
+  rewrite Erest, app_nil_r in Eb.
+  assert (pad_ok b = true) as Hp by (unfold pad_ok; rewrite Erest; reflexivity).
+  destruct (all_from_at_split cs Hall) as (nz & k & Ecs & Hnz).
+  assert (decode_bin_as_ascii6 b = map sixbit_char nz) as Es.
+  { rewrite decode_text_is_spec_text by assumption. unfold spec_text. fold cs. fold cs in Htrim.
+    rewrite (trim_len_eq _ Htrim), Ecs. apply until_at_nz. exact Hnz. }
+  destruct (decoded_text b Hp) as (Hl & Hok & _). rewrite Es in *.
+  assert (len b / 6 <= f_width f / 6)%nat as Hdiv by (apply Nat.div_le_mono; lia).
+  unfold bits_of_field, encode_field. rewrite Hf. cbn [apply_opt_conv bind]. rewrite Hd.
+  rewrite (str_to_bin_form (map sixbit_char nz) (f_width f) (negb (f_varlen f)) Hok ltac:(lia)). cbn [bind].
+  pose proof (sixbit_codes_range (len b) b) as Hrange. fold cs in Hrange. rewrite Ecs in Hrange.
+  apply Forall_app in Hrange as [Rnz _].
+  assert (concat (map six_bits (map sixbit_char nz)) = concat (map (z_to_bits 6) nz)) as Enz.
+  { clear - Rnz Hnz. induction nz as [|c r IH]; [reflexivity|].
+    cbn [forallb] in Hnz. apply andb_prop in Hnz as [Hc Hr]. apply negb_true_iff in Hc.
+    inversion Rnz as [|? ? Rc Rr]; subst. cbn [map List.concat]. rewrite IH by assumption. f_equal.
+    pose proof (code_bits c Rc) as E. rewrite Hc in E. exact E. }
+  assert (List.length cs = List.length nz + k)%nat as Lk by (rewrite Ecs, app_length, repeat_length; reflexivity).
+  assert (forall m, concat (map six_bits (repeat 64 m)) = concat (map (z_to_bits 6) (repeat 0 m))) as Ez.
+  { induction m as [|m IH]; [reflexivity|]. cbn [repeat map List.concat]. rewrite IH. reflexivity. }
+  rewrite Hv. destruct ex; cbn [negb].
+  - (* exactly the characters: no '@' at all *)
+    fold cs in Hside. rewrite Ecs, forallb_app in Hside. apply andb_prop in Hside as [_ Hk].
+    assert (k = 0%nat) as -> by (destruct k; [reflexivity|discriminate]).
+    cbn [repeat] in Ecs. rewrite app_nil_r in Ecs. rewrite Enz, <- Ecs, <- Eb. rewrite firstn_all2 by lia. reflexivity.
+  - (* padded with '@' to the full width *)
+    rewrite map_length. rewrite map_app, concat_app, Enz, Ez.
+    assert (f_width f / 6 - List.length nz = k)%nat as -> by (rewrite <- Hside, <- Lcs; lia).
+    rewrite <- concat_app, <- map_app, <- Ecs, <- Eb. rewrite firstn_all2 by lia. reflexivity.
+Qed.
